@@ -2,6 +2,7 @@ package props
 
 import (
 	"fmt"
+	"go/token"
 	"go/types"
 	"sort"
 	"strings"
@@ -125,6 +126,7 @@ func signedAddrRule(c *an.Ctx) {
 			}
 		}
 	}
+	singleKeyDiscriminator(c)
 	sort.Strings(writers)
 	c.Extra["signedaddr_writers"] = writers
 	c.Extra["address_constructors_by_writer"] = ctors
@@ -133,6 +135,61 @@ func signedAddrRule(c *an.Ctx) {
 	c.Check(strings.Join(v, ",") == strings.Join(f, ",") && len(v) > 0, "siblings|SignedAddr|ont-validator-vs-fallback-derivation",
 		"the validator and the sealed-block fallback derive the signer accounts of an Ontology-format transaction in the same way (same address constructors over the same inputs)", "-",
 		fmt.Sprintf("validator uses {%s} on the parsed keys; fallback uses {%s} on the raw verification script — they differ for every script GetProgramInfo accepts that is not the canonical encoding of its keys (unsorted m-of-n keys, non-minimal pushes, Ethereum-type keys)", strings.Join(v, ","), strings.Join(f, ",")))
+}
+
+// singleKeyDiscriminator: wherever a signer account is derived from a key list, the single-key form
+// AddressFromPubKey(keys[0]) is chosen exactly when the list has one key (the validator's rule): a derivation that
+// keys on anything else (the threshold m, say) names a different account for 1-of-n multi-signature scripts.
+func singleKeyDiscriminator(c *an.Ctx) {
+	afp := mustObj(c, "core/types.AddressFromPubKey")
+	if afp == nil {
+		return
+	}
+	n := 0
+	for _, q := range []string{"core/validation.checkTransactionSignatures", "core/types.(*Transaction).GetSignatureAddresses"} {
+		root := c.P.Func(q)
+		if root == nil || root.Blocks == nil {
+			c.Undecide("anchor|"+q, "anchors must resolve", "-", "function not found")
+			continue
+		}
+		for _, k := range an.CallsToReach(root, afp) {
+			// the key: element 0 of a key list
+			ld, isLd := k.Common().Args[0].(*ssa.UnOp)
+			if !isLd {
+				continue
+			}
+			ia, isIA := ld.X.(*ssa.IndexAddr)
+			if !isIA {
+				continue
+			}
+			if idx, isK := ia.Index.(*ssa.Const); !isK || idx.Value == nil || idx.Value.String() != "0" {
+				continue
+			}
+			n++
+			list := an.AccessPath(ia.X)
+			host := k.Parent()
+			g := &an.Guard{Name: "len(keys) == 1", FailValue: an.AFalse, MatchValue: func(v ssa.Value) bool {
+				b, ok := v.(*ssa.BinOp)
+				if !ok || b.Op != token.EQL {
+					return false
+				}
+				one, isK := b.Y.(*ssa.Const)
+				if !isK || one.Value == nil || one.Value.String() != "1" {
+					return false
+				}
+				lc, isCall := b.X.(*ssa.Call)
+				if !isCall {
+					return false
+				}
+				bi, isB := lc.Call.Value.(*ssa.Builtin)
+				return isB && bi.Name() == "len" && an.AccessPath(lc.Call.Args[0]) == list
+			}}
+			v := an.Guarded(c.P, host, []*an.Guard{g}, func(in ssa.Instruction) bool { return in == ssa.Instruction(k) }, false)
+			c.Check(v.Holds && v.GuardSites >= 1, "siblings|SignedAddr|single-key-iff-one-key|"+an.FuncName(host), "the single-key account AddressFromPubKey(keys[0]) is derived only when the key list has exactly one key (as the validator does); with several keys the multi-signature account is the signer",
+				c.P.Rel(k.Pos()), fmt.Sprintf("AddressFromPubKey(%s[0]) is not behind the test len(%s) == 1: %s", list, list, v.Witness))
+		}
+	}
+	c.RequireMin("single-key derivations from a key list", n, 1)
 }
 
 func isErrorType(t types.Type) bool {
